@@ -83,6 +83,16 @@ def real_load(path, name):
         return [], None, "%s: %s" % (type(ex).__name__, ex)
 
 
+def abstract_view_cs(cd):
+    """what harness/umlsynth.abstract_cs computes (the diagram as LanguageCsharp renders it), as bytes (the shape of ub_adaptor_cs's reply)"""
+    from . import umlsynth
+    from kojen import LanguageCsharp
+    D = umlsynth.abstract_cs(cd, LanguageCsharp.LanguageCsharp())
+    def conv(x):
+        return [conv(y) for y in x] if isinstance(x, list) else e(x)
+    return conv(D)
+
+
 def abstract_view(cd):
     """what harness/umlsynth.abstract computes, as bytes (the shape of ub_adaptor's reply)"""
     from . import umlsynth
